@@ -279,6 +279,32 @@ claim("C38", "S1",
       "Parsing of arbitrary strings is not decided; `re` is used only to parse the pattern constant into its AST.",
       "ast ordering/def-use checks + regex AST inspection")
 
+claim("C24", "S1",
+      "Necessary structural clauses: connect() guarded by the connected flag, flag set before subscribing, subject "
+      "subscribed, connection holds the source subscription and the flag reset; ref_count disconnect edge (decrement then "
+      "zero test dominates disposing the connection, own subscription disposed), auto_connect's n-th-subscriber test, and "
+      "the publish/share/replay/publish_value/multicast delegations with their subject kinds (constructor resolved "
+      "through aliases).",
+      "What each subscriber receives is NOT decided; the connect edge of ref_count is deliberately unconstrained "
+      "(connect is idempotent); per-application state is C44.",
+      "ast guard dominance + ownership of the connection + delegation resolution")
+
+claim("C34", "S1",
+      "Necessary clauses: ImmediateScheduler invokes only under duetime <= 0 and raises WouldBlockException otherwise; "
+      "TimeoutScheduler's Timer delay is to_seconds(duetime) and the returned composite cancels that timer; NewThread/"
+      "ThreadPool/absolute forms forward due time, action and state unchanged to a fresh exiting EventLoopScheduler; "
+      "every ScheduledItem.invoke is dominated by not is_cancelled(); EventLoopScheduler returns Disposable(item.cancel).",
+      "Real clock / thread timing is not decided; EventLoopScheduler's own discipline is C31.",
+      "ast guard dominance + argument forwarding + ownership of the timer cancel")
+
+claim("C35", "S1",
+      "Sibling cross-check of schedule_periodic implementations: state threading by def-use, disposed test dominating the "
+      "action and set by the returned disposable, exception disposes and propagates (no swallowing handler), next tick "
+      "scheduled period minus elapsed, first tick after one period; timer tick counter and interval delegation. Thorough "
+      "tier adds the Qt implementation.",
+      "Period values / real timing not decided; CatchScheduler's periodic path is C42.",
+      "ast def-use + guard dominance + handler analysis")
+
 na("C15", "arithmetic over run-time timestamps (queue ordering by timestamp + duetime, 'exactly d later'); no structural "
           "clause that is both necessary and robust beyond ownership/guarding/falsy rules already decided under "
           "C02/C03/C08/C09, whose scope includes these files")
